@@ -671,3 +671,70 @@ impl Elem for W40 {
         self.0[0]
     }
 }
+
+/// 2 bytes: 2 bits of key, 14 bits of id
+#[derive(Debug, Clone, Copy)]
+pub struct K2(pub u16);
+keyed!(K2);
+impl Cell for K2 {
+    const NAME: &'static str = "K2(2 bytes)";
+    fn make(raw: u64) -> K2 {
+        K2(((((raw >> 16) & 3) as u16) << 14) | (raw & 0x3fff) as u16)
+    }
+    fn raw(&self) -> u64 {
+        (((self.0 >> 14) as u64) << 16) | (self.0 & 0x3fff) as u64
+    }
+    fn key(&self) -> u16 {
+        self.0 >> 14
+    }
+    fn set_key(&mut self, k: u16) {
+        self.0 = (self.0 & 0x3fff) | ((k & 3) << 14)
+    }
+}
+
+/// 8 bytes, both halves significant (the upper half is the complement of the lower one)
+#[derive(Debug, Clone, Copy)]
+pub struct K8(pub u64);
+keyed!(K8);
+impl Cell for K8 {
+    const NAME: &'static str = "K8(8 bytes)";
+    fn make(raw: u64) -> K8 {
+        let lo = raw & 0xffff_ffff;
+        K8(lo | ((!lo & 0xffff_ffff) << 32))
+    }
+    fn raw(&self) -> u64 {
+        let lo = self.0 & 0xffff_ffff;
+        lo | if (self.0 >> 32) == (!lo & 0xffff_ffff) { 0 } else { TORN }
+    }
+    fn key(&self) -> u16 {
+        (self.0 >> 16) as u16
+    }
+    fn set_key(&mut self, k: u16) {
+        let lo = (self.0 & 0xffff) | ((k as u64) << 16);
+        self.0 = lo | ((!lo & 0xffff_ffff) << 32)
+    }
+}
+
+/// 16 bytes, alignment 16
+#[derive(Debug, Clone, Copy)]
+pub struct K16(pub u128);
+keyed!(K16);
+impl Cell for K16 {
+    const NAME: &'static str = "K16(16 bytes)";
+    fn make(raw: u64) -> K16 {
+        let lo = (raw & 0xffff_ffff) as u128;
+        K16(lo | (lo << 40) | ((!lo & 0xffff_ffff) << 96))
+    }
+    fn raw(&self) -> u64 {
+        let lo = self.0 & 0xffff_ffff;
+        let ok = self.0 == (lo | (lo << 40) | ((!lo & 0xffff_ffff) << 96));
+        lo as u64 | if ok { 0 } else { TORN }
+    }
+    fn key(&self) -> u16 {
+        (self.0 >> 16) as u16
+    }
+    fn set_key(&mut self, k: u16) {
+        let lo = ((self.0 & 0xffff) | ((k as u128) << 16)) & 0xffff_ffff;
+        self.0 = lo | (lo << 40) | ((!lo & 0xffff_ffff) << 96)
+    }
+}
